@@ -130,10 +130,22 @@ fn seg(marker: u8, payload: &[u8]) -> Vec<u8> {
     v
 }
 
+/// a small XMP packet (no provenance reference in it)
+fn xmp_packet(r: &mut Rng, format: &str) -> Vec<u8> {
+    let title = r.ident(1, 12);
+    format!("<?xpacket begin=\"\" id=\"W5M0MpCehiHzreSzNTczkc9d\"?><x:xmpmeta xmlns:x=\"adobe:ns:meta/\"><rdf:RDF xmlns:rdf=\"http://www.w3.org/1999/02/22-rdf-syntax-ns#\"><rdf:Description rdf:about=\"\" xmlns:dc=\"http://purl.org/dc/elements/1.1/\" dc:format=\"{format}\" dc:title=\"{title}\"/></rdf:RDF></x:xmpmeta><?xpacket end=\"w\"?>").into_bytes()
+}
+
 pub fn jpeg(r: &mut Rng) -> Vec<u8> {
     let mut v = vec![0xFF, 0xD8];
     // JFIF APP0
     v.extend(seg(0xE0, b"JFIF\0\x01\x01\0\0\x01\0\x01\0\0"));
+    // optional XMP packet (APP1)
+    if r.chance(1, 3) {
+        let mut p = b"http://ns.adobe.com/xap/1.0/\0".to_vec();
+        p.extend(xmp_packet(r, "image/jpeg"));
+        v.extend(seg(0xE1, &p));
+    }
     // optional extra APPn / COM
     for _ in 0..r.below(3) {
         let m = *r.pick(&[0xE2u8, 0xEC, 0xED, 0xFE]);
@@ -191,6 +203,12 @@ fn png_chunk(name: &[u8; 4], data: &[u8]) -> Vec<u8> {
 pub fn png(r: &mut Rng) -> Vec<u8> {
     let mut v = vec![0x89, b'P', b'N', b'G', 0x0D, 0x0A, 0x1A, 0x0A];
     v.extend(png_chunk(b"IHDR", &[0, 0, 0, 1, 0, 0, 0, 1, 8, 0, 0, 0, 0]));
+    // optional XMP packet (iTXt, uncompressed)
+    if r.chance(1, 3) {
+        let mut d = b"XML:com.adobe.xmp\0\0\0\0\0".to_vec();
+        d.extend(xmp_packet(r, "image/png"));
+        v.extend(png_chunk(b"iTXt", &d));
+    }
     for _ in 0..r.below(3) {
         let n = r.usize(0, 20);
         let mut d = b"Comment\0".to_vec();
